@@ -31,6 +31,17 @@ ALPHABET = list('"\\`$,:\n\r\t []{}<>()@_-+.eETZNMRF019aBx\x00\x1f') + ['é', ' 
 
 # (document, why it must be rejected)
 BROKEN = [
+    # a nested grid declares its own version: one that says 2.0 cannot hold 3.0-only values
+    ('ver:"3.0"\na\n<<ver:"2.0"\nb\n[1]\n>>\n', 'list in a nested grid that declares 2.0'),
+    ('ver:"3.0"\na\n<<ver:"2.0"\nb\nNA\n>>\n', 'NA in a nested grid that declares 2.0'),
+    ('ver:"3.0"\na\n<<ver:"2.0"\nb\n{x:1}\n>>\n', 'dict in a nested grid that declares 2.0'),
+    ('ver:"3.0"\na\n<<ver:"2"\nb\nhex("00")\n>>\n', 'XStr in a nested grid that declares 2'),
+    ('ver:"3.0"\na\n<<ver:"2.0.0"\nb,c\n1,[]\n>>\n', 'empty list in a nested grid that declares 2.0.0'),
+    ('ver:"3.0"\na\n<<ver:"2.0" m:[1]\nb\nT\n>>\n', 'list in the metadata of a nested grid that declares 2.0'),
+    ('ver:"3.0"\na\n<<ver:"2.0"\nb m:NA\nT\n>>\n', 'NA in the column metadata of a nested grid that declares 2.0'),
+    ('ver:"3.0"\na\n<<ver:"2.0"\nb\n<<ver:"3.0"\nc\n1\n>>\n>>\n', 'grid nested in a nested grid that declares 2.0'),
+    ('ver:"3.0"\na\n[<<ver:"2.0"\nb\n[1]\n>>]\n', 'list in a nested 2.0 grid inside a list'),
+    ('ver:"3.0" m:<<ver:"2.0"\nb\nNA\n>>\na\n1\n', 'NA in a nested 2.0 grid in the metadata'),
     ('a\n1\n', 'missing version header'),
     ('ver:3.0\na\n1\n', 'version not quoted'),
     ('ver:"3.0\na\n1\n', 'unterminated version string'),
@@ -215,13 +226,16 @@ def run(ctx):
     sc.extend(tk if thorough else rng.sample(tk, 700) + [s0[:s0.index('"3.0"') + 5] + t + s0[s0.index('"3.0"') + 5:] for s0 in nested if '"3.0"' in s0 for t in tokens])
     # scalars with an illegal escape are rejected, never read as something
     broken_scalars = ['`\\u41`', '`\\u 041`', '`\\u0x41`', '`\\u0_41`', '`\\u+041`', '`a\\u-041`', '`\\uZZZZ`', '`\\q`', '"\\q"', '"\\u 041"', '"\\u0x41"',
-                      '"\\u0_41"', '"\\u+041"', '"\\u12"', '"\\uZZZZ"', '@r "\\u 041"', 'hex("\\u0x41")', '[`\\u 041`]', '{a:"\\u0_41"}']
+                      '"\\u0_41"', '"\\u+041"', '"\\u12"', '"\\uZZZZ"', '@r "\\u 041"', 'hex("\\u0x41")', '[`\\u 041`]', '{a:"\\u0_41"}',
+                      # a nested grid that declares a pre-3.0 version cannot hold 3.0-only values
+                      '<<ver:"2.0"\nb\n[1]\n>>', '<<ver:"2.0"\nb\nNA\n>>', '[<<ver:"2"\nb\n{x:1}\n>>]', '{g:<<ver:"2.0.0"\nb\nhex("00")\n>>}',
+                      '<<ver:"2.0" m:[1]\nb\nT\n>>', '<<ver:"2.0"\nb\n<<ver:"3.0"\nc\n1\n>>\n>>']
     for ver in ('3.0', '2.0'):
         for text, got in zip(broken_scalars, zincsim.impl_scalar_many(broken_scalars, ver=ver)):
             ctx.coverage['evaluations'] += 1
             ctx.count('broken-scalar')
             if got[0] == 'ok':
-                ctx.violation('impl-counterexample', 'the illegally escaped scalar %r (version %s) was accepted and read as %r' % (text, ver, repr(got[1])[:120]),
+                ctx.violation('impl-counterexample', 'the malformed scalar %r (version %s) was accepted and read as %r' % (text, ver, repr(got[1])[:120]),
                               {'scalar': text, 'version': ver})
                 return
     for ver, ver3 in (('3.0', True), ('2.0', False)):
